@@ -535,13 +535,20 @@ class T2(T):
                 out.append(".abort")
             elif name in self.spec["cond_calls"]:
                 raise self.U(f"{name} called outside a condition")
+            elif name in self.spec.get("marked_by_arg", {}):
+                idx, table = self.spec["marked_by_arg"][name]
+                a_txt = re.sub(r"\s+", "", self.text(strip(e["inner"][1 + idx]), 200))
+                if a_txt not in table:
+                    raise self.U(f"{name} called with an unexpected argument `{a_txt}`")
+                out.append(f"(.ev {self.site(e, 'marked ' + str(name) + ' -> ' + a_txt)} {table[a_txt]})")
             elif name in self.spec.get("marked", {}):
                 out.append(f"(.ev {self.site(e, 'marked ' + str(name))} {self.spec['marked'][name]})")
             elif name != "__builtin_expect" and name not in self.spec.get("pure", ()):
                 st_ = self.site(e, 'call ' + str(name))
                 out.append(f"(.ev {st_} 0)")
-                for r_ in sorted(set((self.spec.get("mem_regs") or {}).values())):
-                    after.append(f"(.havoc {r_} {st_})")
+                if not self.spec.get("mem_stable"):
+                    for r_ in sorted(set((self.spec.get("mem_regs") or {}).values())):
+                        after.append(f"(.havoc {r_} {st_})")
             for a in e["inner"][1:]:
                 a0 = strip(a)
                 if a0.get("kind") == "UnaryOperator" and a0.get("opcode") == "&":
@@ -602,7 +609,7 @@ class T2(T):
         if k == "BinaryOperator" and e0.get("opcode") in ("&&", "||"):
             ev1, c1 = self.cond(e0["inner"][0])
             ev2, c2 = self.cond(e0["inner"][1])
-            if any(".havoc" in x for x in ev2):
+            if any(".havoc" in x for x in ev2) and not self.spec.get("gate_in_rhs_ok"):
                 raise self.U("gate call in the right operand of && / ||")
             return ev1 + ev2, f"(.{'and' if e0['opcode'] == '&&' else 'or'} {c1} {c2})"
         if k == "BinaryOperator" and e0.get("opcode") in ("==", "!="):
@@ -966,3 +973,43 @@ def translate_role_guard(fdecl, src, U):
             "namespace Nice.Gen.RoleConflict\n\n"
             f"def switches (tie q : UInt64) (control : Bool) : Bool :=\n  {ex(kids(the_if)[0])}\n\n"
             "end Nice.Gen.RoleConflict\n")
+
+
+# ---------------------------------------------------------------------------------------------------------------------
+# sixth skeleton: socket/udp-turn.c socket_send_message (C16: data for a peer without a permission is held, not sent)
+# ---------------------------------------------------------------------------------------------------------------------
+SPEC_TURNSEND = {
+    "lean_ns": "TurnSend",
+    "file": "socket/udp-turn.c",
+    "fn": "socket_send_message",
+    "locals": {}, "offset": {}, "bool_result_calls": set(), "pure": set(),
+    "mem_regs": {"priv->compatibility": 0},
+    "mem_stable": True,          # the compatibility mode of a TURN socket is fixed when it is created
+    "cond_calls": {"priv_has_permission_for_peer": 1},
+    # `c && !gate (..)`: the ghost register then holds the answer the gate WOULD give (asked or not): an over-approximation
+    "gate_in_rhs_ok": True,
+    # what leaves through the base socket: kind 3 = towards the relay, kind 8 = the unwrapped message straight to the peer
+    "marked_by_arg": {"_socket_send_messages_wrapped": (1, {"&priv->server_addr": 3, "to": 8})},
+    "marked": {"socket_enqueue_data": 9},
+}
+
+
+def translate_turnsend(spec, fdecl, src, consts, U, root):
+    import os
+    en = enum_signed(root, "NiceTurnSocketCompatibility", U, extra=[os.path.join(root, "socket/udp-turn.h")])
+    t = T2(spec, fdecl, src, consts, U, {"NiceTurnSocketCompatibility": en})
+    prog = t.top()
+    out = [f"/- GENERATED by tools/extract_flow.py from {spec['file']} {spec['fn']} — do not edit.",
+           "   Skeleton (see lean/Nice/Model/Flow.lean).  Registers: r0 = priv->compatibility (fixed when the socket is created),",
+           "   r1 = (ghost) answer of priv_has_permission_for_peer for this destination (2 = not asked).",
+           "   Event kinds: 3 = a wrapped message leaves towards the relay (&priv->server_addr), 8 = the unwrapped message is passed",
+           "   to the base socket for the peer itself, 9 = the wrapped message is queued (socket_enqueue_data), 0 = other.  Sites:"]
+    for i, d in enumerate(t.sites):
+        out.append(f"     {i} — {d}".replace("/-", "/ -").replace("-/", "- /"))
+    out += ["-/", "import Nice.Model.Flow", "namespace Nice.Gen." + spec["lean_ns"], "open Nice.Flow", "",
+            "def prog : Stmt :=", prog, ""]
+    for n, v in en.items():
+        out.append(f"def {n} : Nat := {v}")
+    out += [f"def compatValues : List Nat := [{', '.join(str(v) for v in sorted(en.values()))}]",
+            "", "end Nice.Gen." + spec["lean_ns"], ""]
+    return "\n".join(out), {"sites": len(t.sites)}
